@@ -168,7 +168,12 @@ class ServerConfig:
         if not self.enable_access_control:
             return None
 
-        if not (self.access_control_allow_list or self.access_control_deny_list):
+        # Without any list there is nothing to enforce - unless the default policy
+        # is deny, which must still be honoured
+        if (
+            not (self.access_control_allow_list or self.access_control_deny_list)
+            and self.access_control_default_allow
+        ):
             return None
 
         return AccessControlConfig(
